@@ -14,16 +14,22 @@ import (
 // One delivered event completes the transaction so that the response-building code is reached as well.
 func VerifC12Set() {
 	req := &gnmi.SetRequest{}
+	// mode 0 ("string"): one element, no key, name of up to namelen symbolic bytes, prefix without elements;
+	// mode 1 ("shape"): prefix with 0..1 elements, 0..elems path elements, names of <= 1 byte, optional key
+	maxElems, nameLen, withKey, prefixElems := 1, verifrt.Param("namelen"), false, 0
+	if verifrt.Fork("mode", 2) == 1 {
+		maxElems, nameLen, withKey, prefixElems = verifrt.Param("elems"), 1, true, 1
+	}
 	if !verifrt.NondetBool("prefix.absent") {
-		req.Prefix = &gnmi.Path{Target: vGenTarget("prefix.target"), Elem: vGenElems("prefix", 1)}
+		req.Prefix = &gnmi.Path{Target: vGenTarget("prefix.target"), Elem: vGenElems("prefix", prefixElems, 1, false)}
 	}
 	switch verifrt.Fork("opkind", 3) {
 	case 0:
-		req.Delete = []*gnmi.Path{{Target: vGenTarget("del.target"), Elem: vGenElems("del", verifrt.Param("elems"))}}
+		req.Delete = []*gnmi.Path{{Target: vGenTarget("del.target"), Elem: vGenElems("del", maxElems, nameLen, withKey)}}
 	case 1:
-		req.Replace = []*gnmi.Update{{Path: vGenPath("rep", verifrt.Param("elems")), Val: vGenValue("rep.val")}}
+		req.Replace = []*gnmi.Update{{Path: vGenPath("rep", maxElems, nameLen, withKey), Val: vGenValue("rep.val")}}
 	case 2:
-		req.Update = []*gnmi.Update{{Path: vGenPath("upd", verifrt.Param("elems")), Val: vGenValue("upd.val")}}
+		req.Update = []*gnmi.Update{{Path: vGenPath("upd", maxElems, nameLen, withKey), Val: vGenValue("upd.val")}}
 	}
 	req.Extension = vGenExtensions("ext")
 	vNEvents = 1
